@@ -372,7 +372,7 @@ pub fn run(args: &Args) -> (Meta, Stats) {
                     // (the last four: characters above U+00FF whose low byte is an ASCII digit or hex letter)
                     const COLLIDING: [&str; 4] = ["\u{131}", "\u{141}", "\u{161}", "\u{1f631}"];
                     let rotating = [";", "", COLLIDING[(v as usize + k) % 4]];
-                    let terms: &[&str] = if quick && !interesting(v) { &rotating } else { &[";", "", "z", " ", "<", "\u{131}", "\u{141}", "\u{161}", "\u{1f631}", "\u{130}"] };
+                    let terms: &[&str] = if quick && !interesting(v) { &rotating } else { &[";", "", "z", " ", "<", "\u{131}", "\u{141}", "\u{161}", "\u{1f631}", "\u{130}", "\n", ";\n", "\r", ";\r", ";\r\n", "\r\n", "\t", "\x0c", "&", "=", "#", ";&#10;", ";\u{feff}"] };
                     for term in terms {
                         let body = format!("{form}{term}");
                         let ctx = if quick { CTXS[(v as usize + k) % 5] } else { CTXS[(v as usize + k) % 5] };
